@@ -8,6 +8,7 @@ CONSTANTS
   MaxOut = 2
   GenRot = TRUE
   GenBack = "all"
+  GenSorted = FALSE
   MaxCtr = 1
   LoadCap = 2
   MaxReq = 2
